@@ -394,6 +394,9 @@ func c37GenQuery(t *rapid.T) c37Gen {
 			head = c37Kw(t, "explain") + " " + head
 		}
 		cols := "*"
+		if n := rapid.SampledFrom([]int{0, 0, 40, 100, 250}).Draw(t, "listlen"); n > 0 {
+			cols = longList(n)
+		}
 		if style == 2 && target > 0 {
 			cols = longList(target - len(head) - 8)
 		}
@@ -414,6 +417,9 @@ func c37GenQuery(t *rapid.T) c37Gen {
 			head = c37Kw(t, "explain") + " " + head
 		}
 		cols := rapid.SampledFrom([]string{"*", "a._key, b._value", "a._key"}).Draw(t, "cols")
+		if n := rapid.SampledFrom([]int{0, 0, 40, 100, 250}).Draw(t, "listlen"); n > 0 {
+			cols = longList(n)
+		}
 		jk := c37Kw(t, "join")
 		if rapid.IntRange(0, 3).Draw(t, "leftjoin") == 0 {
 			jk = c37Kw(t, "left") + " " + jk
@@ -714,7 +720,7 @@ func TestVF_C37_Forward(t *testing.T) {
 		var kinds []string
 		for i := 0; i < n; i++ {
 			var g c37Gen
-			mode := rapid.IntRange(0, 5).Draw(t, "qmode")
+			mode := rapid.SampledFrom([]int{0, 1, 2, 2, 3, 4, 5, 2}).Draw(t, "qmode")
 			switch {
 			case len(queries) > 0 && mode == 0: // same first 512 bytes as an earlier query, different tail (decision cache key)
 				prev := strings.TrimSpace(queries[rapid.IntRange(0, len(queries)-1).Draw(t, "prev")])
